@@ -544,7 +544,9 @@ def sat_sub_form(e):
 
 def dispatcher_prefix(prog, an, lay, parser_path):
     """Bytes consumed by the dispatcher before it hands the remainder to `parser_path` (the version wrapper)."""
-    for b in prog.bodies.values():
+    from .common import dispatcher_paths, role_body
+    cands = [role_body(prog, p) for p in sorted(dispatcher_paths(prog))]     # the version match may live in a private piece
+    for b in [x for x in cands if x is not None] + list(prog.bodies.values()):
         for blk, t, c in b.calls():
             if c is not None and c.local and c.path == parser_path:
                 arg = peel(an.opx(b, t["args"][-1]))       # private splitting helpers inlined
